@@ -223,16 +223,20 @@ func TestDrive(t *testing.T) {
 		body   string
 		want   int
 		sends  int
+		twice  bool // a second identical call through the same client (its cache is warm)
 	}
 	stacks := []stackCase{
-		{"basic-then-ok", []string{"basic", "ok"}, "replay", 200, 2},
-		{"basic-then-ok", []string{"basic", "ok"}, "oneshot", 200, 2},
-		{"basic-then-ok", []string{"basic", "ok"}, "none", 200, 2},
-		{"ise-basic-ise-ok", []string{"ise", "basic", "ise", "ok"}, "replay", 200, 2},
-		{"ise-basic-ise-ok", []string{"ise", "basic", "ise", "ok"}, "oneshot", 200, 2},
-		{"bearer-then-ok", []string{"bearer", "ok"}, "replay", 200, 2},
-		{"bearer-tm-ok", []string{"bearer", "tm", "ok"}, "replay", 200, 2},
-		{"bearer-then-ok", []string{"bearer", "ok"}, "oneshot", 200, 2},
+		{"basic-then-ok", []string{"basic", "ok"}, "replay", 200, 2, false},
+		{"basic-then-ok", []string{"basic", "ok"}, "oneshot", 200, 2, false},
+		{"basic-then-ok", []string{"basic", "ok"}, "none", 200, 2, false},
+		{"ise-basic-ise-ok", []string{"ise", "basic", "ise", "ok"}, "replay", 200, 2, false},
+		{"ise-basic-ise-ok", []string{"ise", "basic", "ise", "ok"}, "oneshot", 200, 2, false},
+		{"bearer-then-ok", []string{"bearer", "ok"}, "replay", 200, 2, false},
+		{"bearer-tm-ok", []string{"bearer", "tm", "ok"}, "replay", 200, 2, false},
+		{"bearer-then-ok", []string{"bearer", "ok"}, "oneshot", 200, 2, false},
+		{"bearer-ok-twice", []string{"bearer", "ok", "bearer", "ok"}, "replay", 200, 4, true},
+		{"bearer-ok-twice-tm", []string{"bearer", "ok", "bearer", "tm", "ok"}, "replay", 200, 4, true},
+		{"basic-ok-twice", []string{"basic", "ok", "ok"}, "replay", 200, 3, true},
 	}
 	for si, sc := range stacks {
 		for _, mr := range []int{1, 3} {
@@ -283,11 +287,20 @@ func TestDrive(t *testing.T) {
 				})
 				cl := &auth.Client{Client: &http.Client{Transport: &retry.Transport{Base: base, Policy: policy(mr)}},
 					Credential: auth.StaticCredential("reg.example", auth.Credential{Username: "u", Password: "p"})}
+				cl.Cache = auth.NewCache()
 				resp, err := cl.Do(newRequest(context.Background(), sc.body))
 				st := 0
 				if err == nil {
 					st = resp.StatusCode
 					resp.Body.Close()
+				}
+				if sc.twice && err == nil {
+					lastWasChallenge = true
+					resp, err = cl.Do(newRequest(context.Background(), sc.body))
+					if err == nil {
+						st = resp.StatusCode
+						resp.Body.Close()
+					}
 				}
 				emit(map[string]any{"e": "retry", "kind": "stack", "case": si, "name": sc.name, "body": sc.body, "maxretry": mr, "attempts": attempts,
 					"status": st, "err": err != nil, "want": sc.want, "sends": send})
